@@ -33,6 +33,13 @@ def fromDictKids (b : List Nat) (n : Option (List String)) (d : Option String) :
   | (k, t) :: rest => (k, fromDict b n d t) :: fromDictKids b n d rest
 end
 
+/-- `to_namedtuple()` = `dict_to_namedtuple(self.to_dict(retain_none=False))`: the same nested structure, every dict turned into a
+    `GenericDict` namedtuple whose fields are the keys in order (the keys must be identifiers) -/
+def toNamedtuple (t : PT) : PD := toDict t
+
+/-- `TensorDict.from_namedtuple(nt, batch_size=b, device=d)` = `from_dict(namedtuple_to_dict(nt), …)`: there is no `names` argument -/
+def fromNamedtuple (b : List Nat) (d : Option String) (nt : PD) : PT := fromDict b none d nt
+
 mutual
 /-- every (sub-)tensordict has this batch size, these names and this device -/
 def Uniform (b : List Nat) (n : Option (List String)) (d : Option String) : PT → Prop
